@@ -7,7 +7,7 @@ from harness import graphs as gr
 PROP = "C02"
 COQ = dict(imports=["Model.Plan", "Spec.C02"], in_ty="input02", out_ty="pres (list N)",
            corr="corr_C02", decide="check_C02", inclass="inclass_C02", model="model_C02")
-THEOREMS = ["C02_model_holds", "C02_plan_exact", "C02_total", "C02_decider_sound"]
+THEOREMS = ["C02_model_holds", "C02_plan_exact", "C02_total", "C02_decider_sound", "C02_downgrade_base_removes_all"]
 TRUSTED = ["target strings (ids, base, -N, rev-N, label@rev) are resolved by the real _parse_downgrade_target / _resolve_branch and "
            "handed to the model as (target id or base, branch revision): C02 is planner-after-resolution, resolution itself is C16",
            "order oracle: stored order of _normalized_resolved_dependencies observed; theorems hold for every order"]
